@@ -1313,3 +1313,45 @@ Proof.
   destruct same; [|exact Hanch]. destruct q as [qr qc]. rewrite move_rows_refs_follow in Hanch.
   inversion Hanch. reflexivity.
 Qed.
+
+(* ===================================================================================== *)
+(** * Argument validation (F27 repaired: insertions validate their index like deletions)    *)
+
+Theorem edit_valid_insert last r k :
+  0 < k -> (edit_valid last r k = true <-> 1 <= r <= last).
+Proof.
+  intro Hk. unfold edit_valid. replace (0 <? k) with true by (symmetry; apply Z.ltb_lt; lia).
+  rewrite andb_true_iff, !Z.leb_le. tauto.
+Qed.
+
+(* every accepted insertion has its index on the grid and a positive count *)
+Theorem accepted_insert_on_grid last r delta :
+  0 <= delta -> edit_valid last r delta = true -> 0 < delta /\ 1 <= r <= last.
+Proof.
+  intros Hd H. unfold edit_valid in H. destruct (Z.ltb_spec 0 delta) as [A|A].
+  - apply andb_true_iff in H as [H1 H2]. apply Z.leb_le in H1, H2. lia.
+  - replace (delta <? 0) with false in H by (symmetry; apply Z.ltb_ge; lia). discriminate.
+Qed.
+
+Theorem accepted_delete_on_grid last r k :
+  0 < k -> edit_valid last r (- k) = true -> 1 <= r /\ r + k - 1 <= last.
+Proof.
+  intros Hk H. unfold edit_valid in H.
+  replace (0 <? - k) with false in H by (symmetry; apply Z.ltb_ge; lia).
+  replace (- k <? 0) with true in H by (symmetry; apply Z.ltb_lt; lia).
+  apply andb_true_iff in H as [H H3]. apply andb_true_iff in H as [H1 H2].
+  apply Z.leb_le in H1, H2, H3. lia.
+Qed.
+
+(* the former witnesses of F27 are now refused *)
+Example insert_below_one_refused :
+  edit_valid LAST_ROW 0 2 = false /\ edit_valid LAST_ROW (-3) 1 = false /\
+  edit_valid LAST_COLUMN 0 1 = false /\ edit_valid LAST_ROW (LAST_ROW + 1) 1 = false /\
+  edit_valid LAST_ROW 1 1 = true /\ edit_valid LAST_ROW LAST_ROW 7 = true.
+Proof. vm_compute. repeat split; reflexivity. Qed.
+
+(* an accepted insertion never produces a row below 1: with the index on the grid the
+   [row < 1] test of stringify_reference cannot fire on a grid target *)
+Theorem accepted_insert_keeps_rows_positive last r k row :
+  edit_valid last r k = true -> 0 < k -> 1 <= row -> 1 <= (if r <=? row then row + k else row).
+Proof. intros _ Hk Hr. zb. Qed.
